@@ -337,7 +337,7 @@ def run_chunk(binary, run, seed, lo, hi, outbase, res, prop, env_extra=None):
             cmd2 = [binary, mode, str(seed), str(failed_case), str(failed_case + 1), out2] + [str(a) for a in run.get("args", [])]
             try:
                 p2 = subprocess.run(cmd2, stdout=subprocess.DEVNULL, stderr=subprocess.DEVNULL, env=env,
-                                    timeout=run.get("case_timeout", 120), cwd=os.path.dirname(binary))
+                                    timeout=run.get("case_timeout", 900), cwd=os.path.dirname(binary))
                 _read_out(out2, res, run["name"], seed, prop, run.get("remap_props"))
                 with res.lock:
                     res.add_cnt("runner/timeout_then_ok", 1)
